@@ -64,6 +64,46 @@ def programs(tier: str):  # noqa: C901
     for t in ak.terms(3, ak.SMALL_LEAVES):
         if emit(t):
             yield {"term": t}
+    # several DIFFERENT Literal annotations in one term (tuple positions, union alternatives,
+    # element types of sibling containers): each position keeps its own literal set
+    for x, y in (("LiteralA", "LiteralB"), ("LiteralB", "LiteralA"), ("Literal", "Literal2"), ("Literal2", "LiteralA")):
+        X, Y_ = [x], [y]
+        for t in (
+            ["tuple2", X, Y_],
+            ["union", X, Y_],
+            ["optional", ["union", X, Y_]],
+            ["seq", ["union", X, Y_]],
+            ["tuple2", ["seq", X], ["seq", Y_]],
+            ["map_str", ["union", X, Y_]],
+            ["tuple2", X, ["tuple2", Y_, X]],
+            ["union", X, ["union", Y_, ["None"]]],
+            ["tuple2", ["optional", X], ["optional", Y_]],
+            ["tuplev", ["union", X, Y_]],
+        ):
+            if ak.well_formed(t) and emit(t):
+                yield {"term": t}
+    # WIDE unions (4, 5, 6 alternatives; several alternatives sharing one container type): every
+    # 4-subset of a pool of 11 alternatives in both orders, sliding windows for 5 and 6
+    pool = [["seq", ["int"]], ["seq", ["str"]], ["tuple2", ["int"], ["int"]], ["tuple2", ["str"], ["str"]], ["map_str", ["int"]], ["map_str", ["str"]], ["set", ["int"]], ["int"], ["str"], ["None"], ["State"]]
+
+    def union_of(alts):
+        t = alts[-1]
+        for a in reversed(alts[:-1]):
+            t = ["union", a, t]
+        return t
+
+    import itertools as _it
+
+    wide = [list(c) for c in _it.combinations(pool, 4)]
+    for k in (5, 6) if tier == "quick" else (5, 6, 8, 11):
+        for start in range(len(pool)):
+            for step in (1, 3):
+                wide.append([pool[(start + i * step) % len(pool)] for i in range(k)])
+    for alts in wide:
+        for order in (alts, list(reversed(alts))):
+            t = union_of(order)
+            if len({repr(a) for a in order}) == len(order) and emit(t):
+                yield {"term": t}
     if tier == "thorough":
         d2 = list(ak.terms(2, ak.LEAF_NAMES))
         small2 = list(ak.terms(2, ak.SMALL_LEAVES))
